@@ -11,12 +11,13 @@ S(s) == Lit(StrV(s))
 \* ---- the full leaf pool of the "types" scope: every literal kind and spelling
 LeavesPlain == { I(0), I(1), I(2), I(7),
                  F(0, 1), F(1, 2), F(2, 1), F(5, 2), F(1000000, 1), F(1, 16384),
-                 S(<<>>), S(<<97>>), S(<<98>>), S(<<97, 98>>), S(<<97, 92>>),           \* "a\\": a literal that ends in an escaped backslash
+                 S(<<>>), S(<<97>>), S(<<98>>), S(<<97, 98>>), S(<<97, 92>>), S(<<50, 46, 53>>),    \* "2.5": a string that prints like the float 2.5 of this pool           \* "a\\": a literal that ends in an escaped backslash
                  Lit(BoolV(TRUE)), Lit(BoolV(FALSE)), Lit(NilV), Id("x") }
 LeavesAlt == { LitS(IntV(7), "hex"), LitS(IntV(7), "oct"), LitS(IntV(0), "HEX"), LitS(IntV(1), "oct"),
                LitS(IntV(8), "oct"), LitS(IntV(493), "oct"), LitS(IntV(255), "hex"),       \* 010, 0755, 0xff: where the base matters
                LitS(FloatV(1, 2), "exp"), LitS(FloatV(2, 1), "EXP"), LitS(FloatV(5, 2), "EXP"),
-               LitS(StrV(<<97>>), "hex"), LitS(StrV(<<97, 98>>), "uni"), LitS(StrV(<<98>>), "oct") }
+               LitS(StrV(<<97>>), "hex"), LitS(StrV(<<97, 98>>), "uni"), LitS(StrV(<<98>>), "oct"),
+               LitS(StrV(<<99, 233>>), "hex") }       \* "\x63\xe9": a string that is not valid UTF-8 (strings are byte sequences)
 LeavesT == LeavesPlain \cup LeavesAlt
 BinOps == {"+", "-", "*", "/", "==", "!=", "<", "<=", ">", ">=", "and", "or"}
 UnOps == {"-", "+", "not"}
